@@ -546,6 +546,31 @@ func freshIdent(text, old string) string {
 // nearMiss returns a name that differs from the identifier old by one trailing
 // character and occurs nowhere in text ("" if there is none).
 func nearMiss(text, old string, mode int) string {
+	if mode >= 6 {
+		// Spellings that are names (or IDs no definition can have), whatever the
+		// original identifier was — also when it was an unnamed %N / @N / !N.
+		if len(old) < 2 {
+			return ""
+		}
+		var cand string
+		switch {
+		case mode == 6 && (old[0] == '%' || old[0] == '@'):
+			// '-' may start a name: %-0 is the value NAMED "-0", not the unnamed %0
+			cand = old[:1] + "-0"
+		case mode == 7 && (old[0] == '%' || old[0] == '@'):
+			// the empty quoted name
+			cand = old[:1] + "\"\""
+		case mode == 8 && (old[0] == '%' || old[0] == '@' || old[0] == '!'):
+			// a number that does not fit in 64 bits (for % and @: a name made of digits)
+			cand = old[:1] + "99999999999999999999"
+		default:
+			return ""
+		}
+		if countIdent(text, cand) > 0 || strings.Contains(text, "\n"+cand[1:]+":") {
+			return ""
+		}
+		return cand
+	}
 	if len(old) < 3 || isUnnamedIdent(old) || strings.ContainsAny(old, "\"\\") || old[0] == '!' {
 		return ""
 	}
@@ -630,7 +655,7 @@ func applyFaultNear(text string, s Site, cross, numeric bool, near int) string {
 // faulted text, it is what an earlier request left behind: nothing of it may
 // satisfy the undefined reference of the next parse.
 func decoyFor(text string, s Site, cross, numeric bool, near int) string {
-	if !strings.HasPrefix(s.Kind, "use:") {
+	if !strings.HasPrefix(s.Kind, "use:") || near >= 7 {
 		return ""
 	}
 	faulted := applyFaultNear(text, s, cross, numeric, near)
@@ -834,11 +859,17 @@ func c05Search() {
 				sum.Skipped["sites not sampled in the quick tier"]++
 				continue
 			}
-			for variant := 0; variant < 8; variant++ {
+			for variant := 0; variant < 11; variant++ {
 				cross, numeric := variant == 1, variant == 2
 				near := 0
 				if variant >= 3 {
 					near = variant - 2
+					if near == 7 && os.Getenv("SIM_C05_EMPTYNAME") == "" {
+						// The empty quoted name (%"", @"") is bound to the unnamed value
+						// number 0: known finding K3, pinned by a tape of its own
+						// (findings/C05/); the search stays off exactly this spelling.
+						continue
+					}
 					if !strings.HasPrefix(s.Kind, "use:") || nearMiss(cf.Text, cf.Text[s.Off:s.End], near) == "" {
 						continue
 					}
@@ -865,8 +896,11 @@ func c05Search() {
 				if numeric {
 					sum.Counters["faulted inputs redirected to an unnamed ID just past the last possible one"]++
 				}
-				if near > 0 {
+				if near > 0 && near < 6 {
 					sum.Counters["faulted inputs redirected to a one-character near miss of the original name"]++
+				}
+				if near >= 6 {
+					sum.Counters["faulted inputs redirected to "+map[int]string{6: "the NAME -0", 7: "the empty quoted name", 8: "a number beyond 64 bits"}[near]]++
 				}
 				sum.Counters["fault kind "+siteClass(s.Kind)]++
 				sum.Counters["map-range visits in non-canonical order"] += o.nonIdentity
